@@ -506,6 +506,12 @@ type c10Combo struct {
 	Extras                            int
 	// ExtraPtrMismatch: the hook declares its additional parameters with the opposite pointer-ness
 	ExtraPtrMismatch bool
+	// ExtraVariant: "" the hook's additional parameters have the types of the method's additional arguments;
+	// "hook-wider": the hook takes interface{} where the method passes int / *LInner (fits: every value is assignable to it);
+	// "hook-narrower": the method passes interface{} where the hook takes int / *LInner (cannot fit);
+	// "variadic": the method's last additional argument is a []int and the hook's last parameter is ...int (fits only
+	// if the call spreads the slice: must be rejected, or accepted with code that compiles)
+	ExtraVariant string
 }
 
 func (c c10Combo) legal() bool {
@@ -517,6 +523,9 @@ func (c c10Combo) legal() bool {
 	}
 	if c.ExtraPtrMismatch {
 		return false // additional arguments are passed as they are: int is not *int
+	}
+	if c.ExtraVariant == "hook-narrower" || c.ExtraVariant == "variadic" {
+		return false
 	}
 	return true
 }
@@ -532,11 +541,33 @@ func c10Method(c c10Combo, idx int, uf *pg.UserFuncs) pg.Method {
 		m.Recv = "rcv"
 	}
 	for i := 0; i < c.Extras; i++ {
-		m.Extras = append(m.Extras, pg.Param{Type: c10ExtraTypes[i]})
+		et := c10ExtraTypes[i]
+		if c.ExtraVariant == "hook-narrower" {
+			et = "interface{}"
+		}
+		if c.ExtraVariant == "variadic" && i == c.Extras-1 {
+			et = "[]int"
+		}
+		m.Extras = append(m.Extras, pg.Param{Type: et})
 	}
 	var hx []pg.Param
 	if c.HExtras {
 		hx = m.Extras
+		switch c.ExtraVariant {
+		case "hook-wider":
+			hx = nil
+			for range m.Extras {
+				hx = append(hx, pg.Param{Type: "interface{}"})
+			}
+		case "hook-narrower":
+			hx = nil
+			for i := range m.Extras {
+				hx = append(hx, pg.Param{Type: c10ExtraTypes[i]})
+			}
+		case "variadic":
+			hx = append([]pg.Param{}, m.Extras...)
+			hx[len(hx)-1].Type = "...int"
+		}
 		if len(hx) == 0 {
 			hx = []pg.Param{{Type: "int"}} // illegal on purpose
 		}
@@ -592,6 +623,11 @@ func c10All() []c10Combo {
 					if c.HExtras && ex > 0 && (!c.HErr || c.RetErr) {
 						c.ExtraPtrMismatch = true
 						out = append(out, c)
+						c.ExtraPtrMismatch = false
+						for _, v := range []string{"hook-wider", "hook-narrower", "variadic"} {
+							c.ExtraVariant = v
+							out = append(out, c)
+						}
 					}
 				}
 			}
@@ -617,7 +653,7 @@ func c10Enumeration(env *hx.Env, rec *hx.Recorder, t *testing.T, judge func(*pg.
 	const per = 16
 	batchNo := 0
 	for b := 0; b*per < len(legal); b++ {
-		if b%stride != int(env.Seed)%stride {
+		if int(hx.SplitMix64(uint64(b)^env.Seed*0x9e37)%uint64(stride)) != 0 {
 			continue
 		}
 		batchNo++
@@ -678,7 +714,9 @@ func c10Enumeration(env *hx.Env, rec *hx.Recorder, t *testing.T, judge func(*pg.
 	}
 	// hooks that cannot fit must be rejected at generation time
 	for i, c := range illegal {
-		if i%stride != int(env.Seed)%stride || !mine(env, i/stride) {
+		// hash-based sample: the list is periodic (variants of one combination follow each other), a plain stride would
+		// always pick the same variant
+		if int(hx.SplitMix64(uint64(i)^env.Seed*0x9e37)%uint64(stride)) != 0 || !mine(env, i) {
 			continue
 		}
 		q := &pg.Prog{ExtraFiles: hx.Files{{Name: "home/hooktypes.go", Data: c10Types}}}
@@ -695,8 +733,19 @@ func c10Enumeration(env *hx.Env, rec *hx.Recorder, t *testing.T, judge func(*pg.
 		rec.Eval()
 		rec.NonTrivialDistinctN(1)
 		rec.Class("enumeration:unfit-hook-must-be-rejected")
+		if c.ExtraVariant == "variadic" && exit == 0 && !crashed {
+			// accepted: then the call has to spread the slice, i.e. the output must compile
+			rec.Class("enumeration:variadic-hook-accepted")
+			if r1, _ := judge(q, q.Files()); r1.NotBuilt != "" {
+				rec.Report(t, hx.Failf("C10|hook:"+c.Pos+"|variadic-hook-does-not-compile", "a variadic hook fed from a slice argument is accepted but the generated call does not compile: %+v\n%s\n%s", c, q.RenderSetup(), tail(r1.NotBuilt, 800)), progCase(q, q.Files(), "unfit-hook"))
+			}
+			continue
+		}
 		if exit == 0 || crashed {
 			why := "error-returning hook on a method without error result"
+			if c.ExtraVariant == "hook-narrower" {
+				why = "hook whose additional parameters (int, *LInner) cannot take the method's interface{} arguments"
+			}
 			if c.HExtras && c.Extras == 0 {
 				why = "hook with additional parameters on a method without additional arguments"
 			} else if c.ExtraPtrMismatch {
